@@ -8,6 +8,7 @@ import sys
 sys.path.insert(0, sys.argv[1])
 from stepcode.AggregationDataTypes import ARRAY, LIST, BAG, SET  # noqa: E402
 from stepcode.SimpleDataTypes import INTEGER, REAL, STRING  # noqa: E402
+from stepcode import Builtin  # noqa: E402
 
 BAD = 99
 
@@ -64,7 +65,11 @@ def queries(a):
     hib = q(a.get_hibound)
     un = q(a.get_value_unique)
     un = "T" if un is True else "F" if un is False else "U" if (un is None or str(un).upper().startswith("UNKNOWN") or type(un).__name__ in ("Unknown", "UNKNOWN", "LOGICAL")) else str(un)
-    return {"size": int(size) if not isinstance(size, str) else -99,
+    # the EXPRESS built-in functions of the same names must agree with the containers' own answers
+    same = all(str(q(lambda f=f: f(a))) == str(q(m)) for f, m in (
+        (Builtin.SIZEOF, a.get_size), (Builtin.HIBOUND, a.get_hibound), (Builtin.LOBOUND, a.get_lobound),
+        (Builtin.HIINDEX, a.get_hiindex), (Builtin.LOINDEX, a.get_loindex), (Builtin.VALUE_UNIQUE, a.get_value_unique)))
+    return {"builtins": same, "size": int(size) if not isinstance(size, str) else -99,
             "lob": int(q(a.get_lobound)), "hib": -1 if hib is None else int(hib),
             "loi": int(q(a.get_loindex)), "hii": int(q(a.get_hiindex)), "un": un}
 
